@@ -416,3 +416,7 @@ def run(ck, F):
         ck.check(R6, 'get_identifier(' + contracts.short(f['params'][0]['t']) + ')', not bad,
                  f'{f["id"]}: the reserved spelling(s) {[b[1] for b in bad]} get a dynamic look-alike Identifier (path {[b[0][:100] for b in bad]}): '
                  'the built-in type / constant they name is no longer reached through them', loc=f['loc'], fn=f['id'])
+    # a documented spelling reaches its constant only if the search of the reserved-word table finds it: the table is strictly
+    # increasing in the order its search uses, and the search compares the word itself (no byte beyond its extent)
+    import borrow as _borrow
+    _borrow.borrow(ck, F, 'C03', 'C13', {'reserved-words'})
